@@ -10,6 +10,11 @@ for d in sorted(glob.glob('/verif/seeded/*/')):
     if len(summ) > 170: summ = summ[:167] + '...'
     needs = (m.get('needs') or '').replace('|', '/').replace('\n', ' ')
     if len(needs) > 150: needs = needs[:147] + '...'
+    if m.get('status') == 'obsolete':
+        det = ['(obsolete: ' + m.get('obsolete_reason', '')[:120] + '...)']
+        mis = []
+    if m.get('note'):
+        mis = mis + ['note: ' + m['note']]
     rows.append("| %s | %s | %s | %s | %s | %s |" % (m['id'], m.get('property'), summ, needs, '; '.join(det) or '—', ', '.join(mis) or '—'))
 table = "| id | breaks | change | needs | caught by (signature) | not caught by |\n|---|---|---|---|---|---|\n" + "\n".join(rows)
 p = '/verif/DESIGN.md'
